@@ -98,6 +98,20 @@ Definition beep (pin : Z) (neg : Q -> Z) (f : option Q) (on off times : Q) (st :
   beep_loop pin target (c_ulong neg on) (c_ulong neg off) (Z.to_nat n) st.
 
 (* ---- BuzzerSweep ---- *)
+(* static_cast<float>(__redu_total): an unsigned long converted to a 24-bit-significand float, round to
+   nearest, ties to even.  Exact below 2^24.  (The other float operations of the firmware are modelled as exact
+   rational operations; for totals below 2^24 the quotient total/steps cannot be rounded across an integer.) *)
+Definition f32z (n : Z) : Z :=
+  if n <? 2 ^ 24 then n
+  else
+    let u := 2 ^ (Z.log2 n - 23) in
+    let q := n / u in
+    let r := n mod u in
+    let h := u / 2 in
+    if r <? h then q * u
+    else if h <? r then (q + 1) * u
+    else if Z.even q then q * u else (q + 1) * u.
+
 (* progress = (steps == 1) ? 1 : i / (steps - 1);  freq = start + (end - start) * progress, clamped *)
 Definition sweep_freq (s e : Q) (steps i : Z) : Q :=
   let progress := if steps =? 1 then Qmake 1 1 else (inject_Z i / (inject_Z steps - Qmake 1 1))%Q in
@@ -122,7 +136,7 @@ Definition sweep (pin : Z) (neg : Q -> Z) (sq eq dq stepsq : Q) (st : bz) : bz *
   let e := clamp0 eq in
   let total := c_ulong neg dq in
   let steps := Z.max 1 (c_int stepsq) in            (* if (steps < 1) steps = 1 *)
-  let step_delay := (inject_Z total / inject_Z steps)%Q in   (* steps > 0 always holds here *)
+  let step_delay := (inject_Z (f32z total) / inject_Z steps)%Q in   (* steps > 0 always holds here *)
   let '(st1, e1) := sweep_loop pin s e steps step_delay (Z.to_nat steps) 0 st in
   (quiet st1, e1 ++ [NoTone pin]).
 
